@@ -84,7 +84,7 @@ Definition r_missing : root := MkRoot false false UseSession (leaf 1 POk).
 Definition r_good : root := MkRoot true false UseSession crate_ok.
 Definition r_bad : root := MkRoot true false (LocalOk cfg_ok) crate_bad.
 Definition r_cfgerr : root := MkRoot true false LocalErr (leaf 3 POk).
-Example three_roots_no_abort : existsb (aborts cfg_ok) [r_bad; r_missing; r_good] = false.
+Example three_roots_no_abort : existsb aborts [r_bad; r_missing; r_good] = false.
 Proof. reflexivity. Qed.
 Example three_roots :
   run_main (Some cfg_ok) false [r_bad; r_missing; r_good] =
@@ -107,11 +107,21 @@ Proof. vm_compute. reflexivity. Qed.
 Example monitor_rejects : accepts [Parsed 1; ResolveErr; Formatted 1; Emitted 1] = false /\ accepts [Parsed 1; Emitted 1] = false.
 Proof. split; reflexivity. Qed.
 
-(* fatal lexer error: in the root the process ends with 101; premise of exit_one_on_failure otherwise *)
-Example lex_fatal_root : run_main (Some cfg_ok) false [MkRoot true false UseSession (leaf 3 PLexFatal); r_good] = ([[ParseRootErr]], 101).
+(* fatal lexer error: a parse error in the root (repaired code), status 101 before the repair; a module
+   resolution error in a child *)
+Example lex_fatal_root :
+  run_main (Some cfg_ok) false [MkRoot true false UseSession (leaf 3 PLexFatal); r_good] =
+  ([[ParseRootErr];
+    [Parsed 5; Parsed 2; Parsed 9; Parsed 4;
+     Formatted 2; Emitted 2; Formatted 4; Emitted 4; Formatted 5; Emitted 5; Formatted 9; Emitted 9]], 1).
 Proof. vm_compute. reflexivity. Qed.
+Example lex_fatal_root_pre :
+  run_main_pre (Some cfg_ok) false [MkRoot true false UseSession (leaf 3 PLexFatal); r_good] = ([[ParseRootErr]], 101).
+Proof. vm_compute. reflexivity. Qed.
+Example lex_fatal_stdin : run_stdin cfg_ok (leaf 3 PLexFatal) = ([ParseRootErr], 1) /\ run_stdin_pre cfg_ok (leaf 3 PLexFatal) = ([ParseRootErr], 101).
+Proof. vm_compute. split; reflexivity. Qed.
 Example lex_fatal_child :
   run_root cfg_ok false (Node (MkInfo 5 POk false false false ok_res) [leaf 2 PLexFatal]) = ([Parsed 5; ResolveErr], operational_flag).
 Proof. vm_compute. reflexivity. Qed.
-Example bad_does_not_unwind : unwinds cfg_ok crate_bad = false.
-Proof. reflexivity. Qed.
+Example lex_fatal_premises : c_version_ok cfg_ok = true /\ c_disable_all cfg_ok = false /\ c_ignore_ok cfg_ok = true.
+Proof. repeat split. Qed.
